@@ -12,10 +12,70 @@ import (
 	"verifharness/vu"
 )
 
+// c20ManyValidators: size class "many-validators": 63..130 validators (boundaries of a 64-bit word: 63, 64, 65,
+// 127, 128, 129), equal weights.  Every validator creates a first event on top of the previous ones (a chain, so the
+// later ones observe the earlier ones), then about 3/4 of the validators (a quorum) create a second event observing
+// everything.  Every event is processed; medians + matrix are read while the rows fill up and at the end (every
+// validator's median, high indexes included, is then >= 1), metrics of a few events.
+func c20ManyValidators(r *rand.Rand) []string {
+	nv := []int{63, 64, 65, 127, 128, 129, 66 + r.Intn(64), 65, 129}[r.Intn(9)]
+	d := &c05Dag{nv: nv, ws: make([]uint32, nv)}
+	for i := range d.ws {
+		d.ws[i] = 1
+	}
+	in := c05Header(d, 200, 4000000, r.Intn(5), 0)
+	self := r.Intn(nv)
+	id := 0
+	first := make([]int, nv)
+	for v := 0; v < nv; v++ {
+		id++
+		var ps []int
+		if id > 1 {
+			ps = append(ps, id-1)
+		}
+		if id > 2 && r.Intn(2) == 0 {
+			ps = append(ps, 1+r.Intn(id-2))
+		}
+		in = append(in, c05EvOp(c05Ev{id: id, cr: v, seq: 1, parents: ps})...)
+		first[v] = id
+		in = append(in, ";", "P", strconv.Itoa(id), vu.B(v == self))
+		if v == 62 || v == 63 || v == 64 || v == nv-1 {
+			in = append(in, ";", "G")
+		}
+	}
+	top := id
+	perm := r.Perm(nv)
+	k := nv*3/4 + 1
+	for j, v := range perm[:k] {
+		id++
+		in = append(in, c05EvOp(c05Ev{id: id, cr: v, seq: 2, parents: []int{first[v], top}})...)
+		in = append(in, ";", "P", strconv.Itoa(id), vu.B(v == self))
+		if j%16 == 15 || j == k-1 || j == nv*2/3 || j == nv*2/3+1 {
+			in = append(in, ";", "G", ";", "T", strconv.Itoa(id))
+		}
+	}
+	in = append(in, ";", "T", strconv.Itoa(first[nv-1]), ";", "T", strconv.Itoa(first[0]), ";", "G")
+	vu.Stat("scenario_many_validators")
+	if nv > 64 {
+		vu.Stat("more_than_64_validators")
+	}
+	return in
+}
+
 func init() {
 	vu.Register("C20", &vu.Prop{
 		Gen: func(r *rand.Rand, n int, tier string, emit func(...string)) {
+			nextMany := 5
 			for i := 0; i < n; {
+				if i >= nextMany { // size class many-validators: 2 per quick run
+					emit(c20ManyValidators(r)...)
+					i++
+					nextMany += 30
+					if tier == "thorough" {
+						nextMany -= 20
+					}
+					continue
+				}
 				d := c05PickDag(r, tier, i+1)
 				for mode := 0; mode < 2 && i < n; mode++ {
 					order := c05Order(r, d, mode)
